@@ -68,9 +68,10 @@ static uint8_t strm8(uint8_t crc, const uint8_t *d, size_t n)
 }
 
 // ---------------------------------------------------------------- one message through every routine
-static void check_message(const uint8_t *msg, size_t n, uint32_t seed32, unsigned misalign, bool splits)
+static void check_message(const uint8_t *msg, size_t n, uint32_t seed32, unsigned misalign, bool splits, bool mirror = false)
 {
-    vf::Exact e(msg, n, misalign);
+    // mirror: the block starts exactly at the message (red zone right in front of msg[0]) to catch under-reads
+    vf::Exact e(msg, n, mirror ? 5 : misalign, mirror);
     const uint8_t *p = e.p;
     uint8_t s8 = (uint8_t)seed32;
     uint16_t s16 = (uint16_t)seed32;
@@ -142,7 +143,9 @@ static void check_message(const uint8_t *msg, size_t n, uint32_t seed32, unsigne
             }
             VF_OK("chained == one-shot (crc8, table, crc16, strmcrc8)");
         }
-    uint64_t h = vf::hash_bytes(msg, n, vf::mix(seed32, misalign * 2 + splits));
+    if (mirror)
+        VF_OK("mirrored placement (red zone in front of the message)");
+    uint64_t h = vf::hash_bytes(msg, n, vf::mix(seed32, misalign * 4 + splits * 2 + mirror));
     vf::count_case(h, n >= 1);
     if (vf::verbose())
         printf("  message n=%zu misalign=%u seed=%08x bytes=%s\n", n, misalign, seed32, w.c_str());
@@ -214,7 +217,7 @@ static void rand_run(uint64_t idx)
     for (size_t i = 0; i < len; i++)
         m[i] = mode == 0 ? (uint8_t)r.next() : mode == 1 ? ALPHA[r.below(4)] : mode == 2 ? (uint8_t)(0xF0 | r.below(16)) : (uint8_t)(r.chance(1, 8) ? r.next() : 0);
     bool splits = len <= 40 || r.chance(1, 16);
-    check_message(m, len, (uint32_t)r.next(), mis, splits);
+    check_message(m, len, (uint32_t)r.next(), mis, splits, mis == 0 && (idx / 2048) % 2 == 1);
     if (vf::want_sample() && len > 8)
         vf::sample("random: len=%zu misalign=%u msg=%s", len, mis, vf::hex(m, len, 24).c_str());
 }
@@ -225,6 +228,6 @@ extern "C" void vf_setup()
     for (const char *c : {"crc8 table == bit-serial", "crc8 == Dallas reference", "mmc_crc7 == reference", "strmcrc8 == reference",
                           "strmcrc8(m ++ crc(m)) == 0", "crc16 == CCITT reference", "crc32 == word-oriented reference",
                           "crc32 chained at word boundary == one-shot", "chained == one-shot (crc8, table, crc16, strmcrc8)",
-                          "crc32 HelloWorld calibration vector"})
+                          "crc32 HelloWorld calibration vector", "mirrored placement (red zone in front of the message)"})
         vf::require(c);
 }
